@@ -66,6 +66,18 @@ def run(ctx):
         ctx.anchor_lost('C15.anchor', 'binary crate facts', hard=True)
         return
     divisions.run(ctx, 'C15')
+
+    def field_by_type(adt_name, pred, default):
+        adt = b.adts.get(adt_name) or next((v for k, v in b.adts.items() if k.endswith('::' + adt_name)), None)
+        if adt:
+            for n_, ty in zip(adt[0].get('fields', []), adt[0].get('ftys', [])):
+                if pred(ty):
+                    return n_
+        return default
+    # fields identified by type, not by name (robust to renaming a private struct's fields)
+    F_SUM = field_by_type('GlobalInfo', lambda ty: ty == 'f64', 'sum')
+    F_OUT = field_by_type('GlobalInfo', lambda ty: 'HashMap<u64, f64' in ty, 'outcomes')
+    F_CUM = field_by_type('JoinedNode', lambda ty: ty == 'f64', 'cum_payoff')
     # ---------------- (1) offset coefficient
     rule = 'C15.offset-coefficient'
     g = ctx.fn('bin', "<gambit::JoinedNode<'_> as cfr::IntoGameNode>::into_game_node", rule)
@@ -76,8 +88,8 @@ def run(ctx):
             ctx.anchor_lost(rule, 'gambit into_game_node: GameNode::Terminal')
         for bi, st, e in terms:
             p = e4.try_poly(e[2][0])
-            is_sum = lambda a: a[0] == 'val' and a[1][0] == 'field' and a[1][2] == 'sum'
-            is_cum = lambda a: a[0] == 'val' and a[1][0] == 'field' and a[1][2] == 'cum_payoff'
+            is_sum = lambda a: a[0] == 'val' and a[1][0] == 'field' and a[1][2] == F_SUM
+            is_cum = lambda a: a[0] == 'val' and a[1][0] == 'field' and a[1][2] == F_CUM
             if p is None:
                 ctx.bad(rule, rule + ':terminal-form', 'terminal payoff = cumulative + own - offset', g.where(bi), 'form not recognised')
                 continue
@@ -121,7 +133,7 @@ def run(ctx):
             t = strip_refs(e[2][0])
             if t[0] == 'agg' and t[1] == 'tuple' and len(t[2]) == 2:
                 o = norm(t[2][1])
-                good = o[0] == 'field' and o[2] == 'sum' and q.find_sub(o, lambda s: q.is_call(s, 'get_global_info')) is not None
+                good = o[0] == 'field' and o[2] == F_SUM and q.find_sub(o, lambda s: q.is_call(s, 'get_global_info')) is not None
         ctx.verdict(good, rule, rule + ':reader-returns-sum', 'the offset the Gambit reader returns is the `sum` of the GlobalInfo the payoffs were shifted by', fs.where(0), 'found: %s' % good)
     js = ctx.fn('bin', 'json::from_state', rule)
     if js is not None:
@@ -138,14 +150,14 @@ def run(ctx):
                 n += 1
                 ctx.touch(c)
                 # in terms of into_game_node itself (captures resolved through every closure level)
-                ce = q.resolve_captures(b, c, fields.get('cum_payoff', ('other', 'x')))
+                ce = q.resolve_captures(b, c, fields.get(F_CUM, ('other', 'x')))
                 p = e4.try_poly(ce)
                 caps = []
                 ok = p is not None and len(p) == 2 and set(p.values()) == {1.0} and all(len(m_) == 1 and m_[0][0] == 'val' for m_ in p)
                 if ok:
                     for m_ in p:
                         caps.append(facts.show(norm(m_[0][1])))
-                is_parent_cum = lambda x: x.endswith('.cum_payoff') and x.split('.')[0] in ('self', g.local_name(1) or 'self')
+                is_parent_cum = lambda x: x.endswith('.' + F_CUM) and x.split('.')[0] in ('self', g.local_name(1) or 'self')
                 good_caps = len(caps) == 2 and sum(1 for x in caps if is_parent_cum(x)) == 1
                 ctx.verdict(ok and good_caps, rule, '%s:child-cumulative:%s' % (rule, 'chance' if 'closure#0' in c.name or n == 1 else 'player'),
                             'the cumulative payoff handed to a child is (+1)*parent cumulative + (+1)*this node\'s outcome payoff', c.where(bi), 'form: %s over captures %s' % (e4.show_poly(p), caps),
@@ -162,9 +174,10 @@ def run(ctx):
                 look = [(bi, cs, v) for bi, cs, v in vals if not is_const(v, 0)]
                 if not zero or not look:
                     continue
-                z_ok = any(c['kind'] == 'Eq' and c['truth'] is True and q.is_call(strip_refs(c['a']), 'outcome') and is_const(c['b'], 0) for c in zero[0][1])
+                z_ok = any(c['kind'] == 'Eq' and c['truth'] is True and q.is_call(strip_refs(c['a']), 'outcome') and is_const(c['b'], 0) for c in zero[0][1]) or \
+                    any(c['kind'] == 'value' and c.get('values') == ['0'] and q.is_call(strip_refs(c['a']), 'outcome') for c in zero[0][1])
                 lk = look[0][2]
-                l_ok = q.find_sub(lk, lambda s: q.is_call(s, 'get') and 'outcomes' in facts.show(s[2][0])) is not None and q.find_sub(lk, lambda s: q.is_call(s, 'outcome')) is not None
+                l_ok = q.find_sub(lk, lambda s: q.is_call(s, 'get') and q.find_sub(s[2][0], lambda y: y[0] == 'field' and y[2] == F_OUT) is not None) is not None and q.find_sub(lk, lambda s: q.is_call(s, 'outcome')) is not None
                 kind = 'chance' if any(c['kind'] == 'variant' and c['variants'] == ['Chance'] for c in zero[0][1]) else 'player'
                 ctx.verdict(z_ok and l_ok, rule, '%s:node-payoff:%s' % (rule, kind), 'an interior node contributes 0 when it has no outcome (0) and the looked-up payoff of its own outcome otherwise', g.where(zero[0][0]),
                             'zero on `outcome == 0`: %s; lookup of own outcome otherwise: %s' % (z_ok, l_ok))
